@@ -18,10 +18,13 @@ vars == <<l, pFail>>
 Applies(s) == s \in {"cst", "smart"}          \* as in Prefilter.tla
 
 Reasons(r) ==
-    (IF r.run_file = r.lib THEN {} ELSE {"run-file"})
-    \cup (IF r.run_stdin = r.lib THEN {} ELSE {"run-stdin"})
-    \cup (IF r.scan_file = r.lib THEN {} ELSE {"scan-file"})
-    \cup (IF r.scan_stdin = r.lib THEN {} ELSE {"scan-stdin"})
+    \* a command that failed before searching (usage error, exit status other than 0/1) reports nothing to compare
+    (IF r.codes[1] \notin {0, 1} \/ r.run_file = r.lib THEN {} ELSE {"run-file"})
+    \cup (IF r.codes[2] \notin {0, 1} \/ r.run_stdin = r.lib THEN {} ELSE {"run-stdin"})
+    \* `sg scan` refuses (exit status other than 0/1) rules without a known set of kinds, e.g. a pattern that
+    \* parses to an ERROR node; `sg run` has no such requirement.  A refused rule scanned nothing: not compared.
+    \cup (IF r.codes[3] \notin {0, 1} \/ r.scan_file = r.lib THEN {} ELSE {"scan-file"})
+    \cup (IF r.codes[4] \notin {0, 1} \/ r.scan_stdin = r.lib THEN {} ELSE {"scan-stdin"})
 
 Drift(r) ==
     LET skipped == Applies(r.s) /\ ~r.fixed_present IN
